@@ -76,6 +76,10 @@ type serverConn struct {
 	// loop meant one of them could panic the process with a send on a closed
 	// channel.
 	writeStop chan struct{}
+	// writeGone is closed when the write loop has returned, which it also does
+	// on its own when a socket write fails. From then on nothing empties
+	// writer, and a send on it has to give up rather than wait.
+	writeGone chan struct{}
 
 	// handlerDone carries a stream back to the stream loop once its handler has
 	// returned. Handlers run on their own goroutines so that a slow request
@@ -140,6 +144,7 @@ func (sc *serverConn) Handshake() error {
 func (sc *serverConn) Serve() error {
 	sc.closer = make(chan struct{}, 1)
 	sc.writeStop = make(chan struct{})
+	sc.writeGone = make(chan struct{})
 	sc.handlerDone = make(chan *Stream, 128)
 	sc.handlerStop = make(chan struct{})
 	// Created disarmed. time.NewTimer(0) fires at once, and with no read
@@ -174,7 +179,7 @@ func (sc *serverConn) Serve() error {
 	}()
 
 	// writeDone lets the teardown wait for queued frames to reach the socket.
-	writeDone := make(chan struct{})
+	writeDone := sc.writeGone
 
 	go func() {
 		defer close(writeDone)
@@ -1887,6 +1892,11 @@ func (sc *serverConn) write(fr *FrameHeader) {
 	select {
 	case sc.writer <- fr:
 	case <-sc.writeStop:
+		ReleaseFrameHeader(fr)
+	case <-sc.writeGone:
+		// The write loop ended by itself: a socket write failed. Once the
+		// queue was full the read loop, answering the pings of a peer that
+		// went on sending, waited here for good and Serve never returned.
 		ReleaseFrameHeader(fr)
 	}
 }
